@@ -122,6 +122,8 @@ def canon(e, arithmetic=True):
         return ('and' if isinstance(e.op, ast.BitAnd) else 'or', tuple(sorted(items)))
     if isinstance(e, ast.UnaryOp) and isinstance(e.op, ast.Not):
         return ('not', _text(canon(e.operand)))
+    if isinstance(e, ast.Call) and isinstance(e.func, ast.Name) and e.func.id in ('max', 'min', 'fmax', 'fmin') and not e.keywords:
+        return ('call', e.func.id, tuple(sorted(_text(canon(a)) for a in e.args)), ())
     if isinstance(e, ast.Call):
         return ('call', _text(canon(e.func, arithmetic=False)), tuple(_text(canon(a)) for a in e.args), tuple(sorted((k.arg or '**', _text(canon(k.value))) for k in e.keywords)))
     if isinstance(e, ast.Attribute):
